@@ -35,12 +35,22 @@ import (
 type lbl struct{ N, V string }
 type smp struct{ T, V int64 }
 type hst struct {
-	T     int64
-	ID    int64
-	Float bool
-	Bad   bool // built so that Validate fails
-	Valid bool // histogram.Validate() == nil (oracle, filled by build)
+	T      int64
+	ID     int64
+	Schema int32
+	Float  bool
+	Bad    bool // built so that Validate fails
+	Valid  bool // Validate() == nil on the histogram as the storage receives it (oracle, filled by fillValid)
+	RedOK  bool // ReduceResolution(8) == nil (oracle; true when no reduction is needed)
 }
+
+// key identifies a histogram in the storage: it is what the Sum field carries.
+func (h hst) key() int64 { return h.ID*256 + int64(h.Schema) + 100 }
+
+func needsReduce(schema int32) bool {
+	return histogram.IsExponentialSchemaReserved(schema) && schema > histogram.ExponentialSchemaMax
+}
+
 type exm struct {
 	L    []lbl    // v1: labels; v2: nil
 	Refs []uint32 // v2
@@ -61,24 +71,62 @@ type request struct {
 	Ser  []ser
 }
 
-func intHist(id int64, bad bool) *histogram.Histogram {
+func intHist(x hst) *histogram.Histogram {
 	h := &histogram.Histogram{
-		Schema: 1, ZeroThreshold: 0.001, ZeroCount: 1, Count: 6, Sum: float64(id),
-		PositiveSpans: []histogram.Span{{Offset: 0, Length: 2}}, PositiveBuckets: []int64{2, 1},
+		Schema: x.Schema, ZeroThreshold: 0.001, ZeroCount: 1, Count: 11, Sum: float64(x.key()),
+		PositiveSpans: []histogram.Span{{Offset: 1, Length: 3}}, PositiveBuckets: []int64{2, 1, -1},
+		NegativeSpans: []histogram.Span{{Offset: -2, Length: 2}}, NegativeBuckets: []int64{1, 1},
 	}
-	if bad {
-		h.Count = 7
+	if x.Schema == histogram.CustomBucketsSchema {
+		h.ZeroThreshold, h.ZeroCount, h.Count = 0, 0, 7
+		h.NegativeSpans, h.NegativeBuckets = nil, nil
+		h.PositiveSpans[0].Offset = 0
+		h.CustomValues = []float64{1, 2, 5}
+	}
+	if x.Bad {
+		h.Count++
 	}
 	return h
 }
 
-func floatHist(id int64, bad bool) *histogram.FloatHistogram {
+func floatHist(x hst) *histogram.FloatHistogram {
 	h := &histogram.FloatHistogram{
-		Schema: 1, ZeroThreshold: 0.001, ZeroCount: 1, Count: 6, Sum: float64(id),
-		PositiveSpans: []histogram.Span{{Offset: 0, Length: 2}}, PositiveBuckets: []float64{2, 3},
+		Schema: x.Schema, ZeroThreshold: 0.001, ZeroCount: 1, Count: 11, Sum: float64(x.key()),
+		PositiveSpans: []histogram.Span{{Offset: 1, Length: 3}}, PositiveBuckets: []float64{2, 3, 2},
+		NegativeSpans: []histogram.Span{{Offset: -2, Length: 2}}, NegativeBuckets: []float64{1, 2},
 	}
-	if bad {
-		h.PositiveSpans[0].Length = 3
+	if x.Schema == histogram.CustomBucketsSchema {
+		h.ZeroThreshold, h.ZeroCount, h.Count = 0, 0, 7
+		h.NegativeSpans, h.NegativeBuckets = nil, nil
+		h.PositiveSpans[0].Offset = 0
+		h.CustomValues = []float64{1, 2, 5}
+	}
+	if x.Bad {
+		h.PositiveSpans[0].Length = 4
+	}
+	return h
+}
+
+// expected returns the histogram the storage must hold for key k (a valid histogram sent with
+// the schema encoded in k): unchanged, or reduced to schema 8 by the real ReduceResolution (oracle).
+func expectedInt(k int64) *histogram.Histogram {
+	x := hst{ID: k / 256, Schema: int32(k%256 - 100)}
+	h := intHist(x)
+	if needsReduce(x.Schema) {
+		if err := h.ReduceResolution(histogram.ExponentialSchemaMax); err != nil {
+			return nil
+		}
+	}
+	return h
+}
+
+func expectedFloat(k int64) *histogram.FloatHistogram {
+	x := hst{ID: k / 256, Schema: int32(k%256 - 100), Float: true}
+	h := floatHist(x)
+	if needsReduce(x.Schema) {
+		if err := h.ReduceResolution(histogram.ExponentialSchemaMax); err != nil {
+			return nil
+		}
 	}
 	return h
 }
@@ -88,10 +136,19 @@ func (r *request) fillValid() {
 	for i := range r.Ser {
 		for j := range r.Ser[i].H {
 			h := &r.Ser[i].H[j]
+			h.RedOK = true
 			if h.Float {
-				h.Valid = floatHist(h.ID, h.Bad).Validate() == nil
+				fh := floatHist(*h)
+				if needsReduce(h.Schema) {
+					h.RedOK = fh.ReduceResolution(histogram.ExponentialSchemaMax) == nil
+				}
+				h.Valid = h.RedOK && fh.Validate() == nil
 			} else {
-				h.Valid = intHist(h.ID, h.Bad).Validate() == nil
+				ih := intHist(*h)
+				if needsReduce(h.Schema) {
+					h.RedOK = ih.ReduceResolution(histogram.ExponentialSchemaMax) == nil
+				}
+				h.Valid = h.RedOK && ih.Validate() == nil
 			}
 		}
 	}
@@ -118,9 +175,9 @@ func (r *request) encode() ([]byte, string) {
 			}
 			for _, h := range s.H {
 				if h.Float {
-					ts.Histograms = append(ts.Histograms, writev2.FromFloatHistogram(0, h.T, floatHist(h.ID, h.Bad)))
+					ts.Histograms = append(ts.Histograms, writev2.FromFloatHistogram(0, h.T, floatHist(h)))
 				} else {
-					ts.Histograms = append(ts.Histograms, writev2.FromIntHistogram(0, h.T, intHist(h.ID, h.Bad)))
+					ts.Histograms = append(ts.Histograms, writev2.FromIntHistogram(0, h.T, intHist(h)))
 				}
 			}
 			for _, e := range s.E {
@@ -141,9 +198,9 @@ func (r *request) encode() ([]byte, string) {
 			}
 			for _, h := range s.H {
 				if h.Float {
-					ts.Histograms = append(ts.Histograms, prompb.FromFloatHistogram(h.T, floatHist(h.ID, h.Bad)))
+					ts.Histograms = append(ts.Histograms, prompb.FromFloatHistogram(h.T, floatHist(h)))
 				} else {
-					ts.Histograms = append(ts.Histograms, prompb.FromIntHistogram(h.T, intHist(h.ID, h.Bad)))
+					ts.Histograms = append(ts.Histograms, prompb.FromIntHistogram(h.T, intHist(h)))
 				}
 			}
 			for _, e := range s.E {
@@ -216,6 +273,7 @@ type event struct {
 	L     []lbl
 	T, V  int64
 	HID   int64
+	Schema int32
 	Float bool
 	EL    []lbl
 }
@@ -283,10 +341,10 @@ func (r *recorder) AppendHistogram(_ storage.SeriesRef, l labels.Labels, t int64
 	}
 	ev := event{Kind: 'h', L: toLbls(l), T: t}
 	if h != nil {
-		ev.HID = int64(h.Sum)
+		ev.HID, ev.Schema = int64(h.Sum), h.Schema
 		ev.V = b2i(h.Validate() == nil)
 	} else {
-		ev.HID, ev.Float = int64(fh.Sum), true
+		ev.HID, ev.Float, ev.Schema = int64(fh.Sum), true, fh.Schema
 		ev.V = b2i(fh.Validate() == nil)
 	}
 	r.acked = append(r.acked, ev)
@@ -340,10 +398,13 @@ func b2i(b bool) int64 {
 // ---------- real head ----------
 
 type storedSample struct {
-	T     int64
-	Hist  bool
-	Float bool // float histogram
-	V     int64
+	T      int64
+	Hist   bool
+	Float  bool // float histogram
+	V      int64
+	Schema int32
+	H      *histogram.Histogram
+	FH     *histogram.FloatHistogram
 }
 type storedEx struct {
 	L    []lbl
@@ -391,10 +452,10 @@ func snapshot(h *tsdb.Head) []storedSeries {
 				st.S = append(st.S, storedSample{T: t, V: int64(v)})
 			case chunkenc.ValHistogram:
 				t, hh := it.AtHistogram(nil)
-				st.S = append(st.S, storedSample{T: t, Hist: true, V: int64(hh.Sum)})
+				st.S = append(st.S, storedSample{T: t, Hist: true, V: int64(hh.Sum), Schema: hh.Schema, H: hh.Copy()})
 			case chunkenc.ValFloatHistogram:
 				t, fh := it.AtFloatHistogram(nil)
-				st.S = append(st.S, storedSample{T: t, Hist: true, Float: true, V: int64(fh.Sum)})
+				st.S = append(st.S, storedSample{T: t, Hist: true, Float: true, V: int64(fh.Sum), Schema: fh.Schema, FH: fh.Copy()})
 			}
 		}
 		if it.Err() != nil {
